@@ -121,6 +121,9 @@ def header_accept_rule(ctx, F):
 
 def run(ctx):
     header_accept_rule(ctx, ctx.facts("default"))
+    ctx.delegate("C03", ["C03.accept", "C03.dispatch", "C03.recsize"], "C08.valid",
+                 "every record the writer can emit is accepted back: part offsets with empty parts, all six patch kinds, the null "
+                 "shape's 2-word record", floor=20)
     _run(ctx)
     ctx.delegate("C15", ["C15.R0", "C15.R2"], "C08.routes",
                  "pairs stay aligned after random access on the shape reader: it starts with an absolute seek and rewinds", floor=2)
